@@ -377,14 +377,18 @@ fn c05_type<T: KS, L: Lab>(out: &mut Out, rng0: &mut Rng, tier: &Tier, nsets: us
     }
 }
 
-/// > 65535 observations of one k-mer: the saturating u16 count (thorough tier, shard 0 only)
+/// > 65535 observations of one k-mer (40000 A^K + 30000 T^K): the saturating u16 count (thorough tier, shard 0 only)
 fn saturating<T: KS>(out: &mut Out, stats: &mut Stats) {
     let k = T::k();
-    let reads = vec![
-        Read { seq: vec![0u8; 40_000 + k - 1], exts: 0, lab: 1 },
-        Read { seq: vec![3u8; 30_000 + k - 1], exts: 0x11, lab: 2 },
-        Read { seq: vec![1u8; 100 + k - 1], exts: 0, lab: 3 },
-    ];
+    // many reads of 250 k-mers each (the model's positional iterator is quadratic in the read length)
+    let mut reads: Vec<Read> = Vec::new();
+    for _ in 0..160 {
+        reads.push(Read { seq: vec![0u8; 250 + k - 1], exts: 0, lab: 1 });
+    }
+    for _ in 0..120 {
+        reads.push(Read { seq: vec![3u8; 250 + k - 1], exts: 0x11, lab: 2 });
+    }
+    reads.push(Read { seq: vec![1u8; 100 + k - 1], exts: 0, lab: 3 });
     let size_of = std::mem::size_of::<(T, u8)>();
     for (stranded, thr, mem, unit) in [
         (false, 1usize, 1usize, 0usize),
